@@ -158,7 +158,9 @@ func (le *LinearEval) eval(e ast.Expr, depth int) Linear {
 			return Linear{}
 		}
 		if def := le.singleDef(v); def != nil {
-			return le.eval(def, depth+1)
+			if r := le.eval(def, depth+1); r.OK {
+				return r
+			}
 		}
 		return linAtom(x.Name)
 	}
